@@ -7,6 +7,7 @@
 -/
 import Generated.Sequences
 import BartiqModel.Compile
+import BartiqProofs.ExprLemmas
 import Mathlib.Data.Rat.Cast.CharZero
 import Mathlib.Algebra.BigOperators.Group.Finset.Basic
 import Mathlib.Algebra.BigOperators.Ring.Finset
@@ -111,6 +112,44 @@ theorem C07_model_constant_prod (hA : FieldLike A) (cnt m x : Expr) (n mm : ℕ)
   rw [show ((n : K) * (mm : K)) = ((n * mm : ℕ) : K) by push_cast; ring, hA.pow]
   rw [← C07_constant_prod]; simp only [constProd]; congr 1; ring_nf
 
+/-- … and `sum_over` its meaning (a sum over the integers lo..hi; empty when hi = lo - 1) -/
+structure FieldLikeBig (A : Alg K) : Prop extends FieldLike A where
+  bigsum : ∀ (n : ℕ) (f : Int → Option K) (g : ℕ → K), (∀ i : ℕ, i < n → f (i : Int) = some (g i)) →
+    A.big .sum 0 ((n : K) - 1) f = some (∑ i ∈ range n, g i)
+
+/-- custom sequence in the model: Σ_{i<n} term(i)·x, the term expression read with the iterator bound to i -/
+theorem C07_model_custom_sum (hA : FieldLikeBig A) (cnt t x : Expr) (it : String) (n : ℕ) (gt : ℕ → K) (vx : K)
+    (hc : Expr.eval A ρ cnt = some (n : K))
+    (ht : ∀ i : ℕ, i < n → Expr.eval A (ρ.update it (A.lit (((i : Int) : ℚ)))) t = some (gt i))
+    (hx : ∀ i : ℕ, i < n → Expr.eval A (ρ.update it (A.lit (((i : Int) : ℚ)))) x = some vx) :
+    ∃ e, Seq.getSum cnt x (.custom t (.sym it)) = .ok e ∧ Expr.eval A ρ e = some (∑ i ∈ range n, gt i * vx) := by
+  refine ⟨_, rfl, ?_⟩
+  simp only [Expr.eval, hc, Option.bind_some, hA.lit, hA.sub, Rat.cast_zero, Rat.cast_one]
+  apply hA.bigsum n _ (fun i => gt i * vx)
+  intro i hi
+  have ht' := ht i hi
+  have hx' := hx i hi
+  simp only [hA.lit] at ht' hx'
+  simp only [ht', hx', Option.bind_some, hA.mul]
+
+/-- closed-form sequence in the model: the child's resource times the user's sum formula read at `count` -/
+theorem C07_model_closed_form_sum (hA : FieldLike A) (cnt s p x : Expr) (nn : String) (n : ℕ) (vs vx : K)
+    (hb : Expr.binders s = [])
+    (hc : Expr.eval A ρ cnt = some (n : K)) (hx : Expr.eval A ρ x = some vx)
+    (hs : Expr.eval A (ρ.update nn (some (n : K))) s = some vs) :
+    ∃ e, Seq.getSum cnt x (.closedForm (some s) p (.sym nn)) = .ok e ∧ Expr.eval A ρ e = some (vx * vs) := by
+  refine ⟨_, rfl, ?_⟩
+  have hu : Expr.under A ρ (Dict.get? [(nn, cnt)]) = ρ.update nn (some (n : K)) := by
+    funext y
+    simp only [Expr.under, Dict.get?, Env.update]
+    by_cases hy : nn = y
+    · subst hy; simp [hc]
+    · have : ¬ y = nn := fun h => hy h.symm
+      simp [hy, this]
+  simp only [Expr.eval, hx, Option.bind_some]
+  rw [Expr.eval_subst A _ ρ s (Expr.noCapture_of_no_binders hb), hu, hs]
+  simp [hA.mul]
+
 -- non-vacuity: exact rational arithmetic is such an interpretation
 def ratFieldAlg : Alg ℚ :=
   { lit := some, neg := fun a => some (-a),
@@ -128,6 +167,32 @@ example : FieldLike ratFieldAlg where
   mul := by intros; rfl
   div := by intro a b hb; simp [ratFieldAlg, hb]
   pow := by intro a n; simp [ratFieldAlg]
+
+theorem bigFold_sum (f : Int → Option ℚ) (g : ℕ → ℚ) : ∀ (n : ℕ), (∀ i : ℕ, i < n → f (i : Int) = some (g i)) →
+    RatAlg.bigFold .sum f 0 n = some (∑ i ∈ range n, g i)
+  | 0, _ => by simp [RatAlg.bigFold]
+  | n + 1, h => by
+    have ih := bigFold_sum f g n (fun i hi => h i (Nat.lt_succ_of_lt hi))
+    have hn := h n (Nat.lt_succ_self n)
+    simp only [RatAlg.bigFold, ih, Option.bind_some, Int.zero_add, hn, sum_range_succ]
+
+/-- the model's own exact-rational `sum_over` satisfies the law -/
+example : FieldLikeBig { ratFieldAlg with big := RatAlg.big } where
+  lit := by intro q; simp [ratFieldAlg]
+  add := by intros; rfl
+  sub := by intros; rfl
+  mul := by intros; rfl
+  div := by intro a b hb; simp [ratFieldAlg, hb]
+  pow := by intro a n; simp [ratFieldAlg]
+  bigsum := by
+    intro n f g h
+    have e : ((n : ℚ) - 1) = (((n : Int) - 1 : Int) : ℚ) := by push_cast; ring
+    simp only [RatAlg.big]
+    rw [e]
+    simp only [Rat.den_intCast, Rat.num_intCast, Rat.den_ofNat, Rat.num_ofNat, and_self, if_true]
+    have : ((n : Int) - 1 + 1 - 0).toNat = n := by omega
+    rw [this]
+    exact bigFold_sum f g n h
 
 -- non-vacuity: concrete instances over ℚ
 example : arithSum (K := ℚ) 4 2 3 5 = (2 + 5 + 8 + 11) * 5 := by norm_num [arithSum]
